@@ -432,7 +432,7 @@ def r_layout(run, F, T, external=True, rule="R-LAYOUT", casts=True):
                     if isinstance(g, tuple) and g[0] == "bin" and g[1] in ("Eq", "Ne") and g[2][0] == "lit" and is_call(g[3]):
                         g = ("bin", g[1], g[3], g[2])       # commuted
                     okc = isinstance(g, tuple) and g[0] == "bin" and ((g[1] == "Eq" and pol is True) or (g[1] == "Ne" and pol is False)) and is_call(g[2]) and \
-                        g[2][1] in ("bytes::Bytes::len", "bytes::Buf::remaining") and g[3][0] == "lit" and (not fixed or g[3][1] == size)
+                        g[2][1] in ("bytes::Bytes::len", "bytes::Buf::remaining") and g[3][0] == "lit" and fixed and g[3][1] == size
                 run.ob(rule, "decoder arm of %s is selected by tag and exact length only" % k, okc,
                        "extra or unrecognised condition on the decoding path of %s: %s (accepted: the tag match, `data.len() == %s` for a fixed-size syntax, "
                        "success of the inner length-prefixed strings)" % (k, cshow(c)[:160], size if fixed else "n"), site(pb),
@@ -692,13 +692,19 @@ def r_frame(run, F, rule="R-FRAME"):
             run.ob(rule, "%s::read_header reads u16,u16,u32 into (version, operation-or-status, request-id)" % rty.split("::")[-1], ok,
                    "reads %s -> %s" % (reads, tshow(hv)[:160]), site(rb), key="%s|%s|header-dec" % (rule, rty))
         rs = F.body("%s::<R>::read_string" % rty)
+        rv = F.body("%s::<R>::read_value" % rty)
         for name in ("read_name", "read_value"):
             b = F.body("%s::<R>::%s" % (rty, name))
             if b is None:
                 run.anchor_lost(rule, "%s::%s" % (rty, name))
                 continue
             # the private text helper read_string is judged inlined (it may or may not exist as a function of its own)
-            for p in paths_of(b, inline={rty + "::<R>::read_string": rs} if rs is not None else None):
+            sib = {}
+            if rs is not None:
+                sib[rty + "::<R>::read_string"] = rs
+            if rv is not None and name == "read_name":
+                sib[rty + "::<R>::read_value"] = rv           # read_name written on top of read_value (the same two reads) is judged with it inlined
+            for p in paths_of(b, inline=sib or None):
                 if p.kind == "try" or (p.ret[0] == "ctor" and p.ret[1].endswith("::Err")):
                     continue
                 reads = [t[1].split("::")[-1] for t in p.trace if is_call(t) and t[1].startswith(rty)]
@@ -774,6 +780,8 @@ def r_mapkey(run, F, rule="R-MAPKEY"):
                     ok = False
                     if is_call(key, "ipp::attribute::IppAttribute::name") and same(key[2][0], val):
                         ok = True
+                    if isinstance(key, tuple) and key[0] == "field" and key[2] == "name" and same(key[1], val):
+                        ok = True       # `attribute.name` is what name() returns
                     if is_call(val, "ipp::attribute::IppAttribute::new") and same(display_norm(val[2][0]), key):
                         ok = True
                     run.ob(rule, "%s: map key = the attribute's name" % path.split("::", 2)[-1], ok, "insert(%s, %s)" % (tshow(t[2][1])[:60], tshow(val)[:80]),
